@@ -377,8 +377,13 @@ impl Bundle {
     /// Return false if hop count is exceeded, bundle age exceeds life time or bundle lifetime itself is exceeded
     pub fn update_extensions(&mut self, local_node: EndpointID, residence_time: u128) -> bool {
         if let Some(hcblock) = self.extension_block_by_type_mut(HOP_COUNT_BLOCK) {
+            // decide on the exact count including this hop, the stored counter saturates
+            let exceeded = match hcblock.hop_count_get() {
+                Some((hc_limit, hc_count)) => u16::from(hc_count) + 1 > u16::from(hc_limit),
+                None => false,
+            };
             hcblock.hop_count_increase();
-            if hcblock.hop_count_exceeded() {
+            if exceeded || hcblock.hop_count_exceeded() {
                 return false;
             }
         }
@@ -387,9 +392,10 @@ impl Bundle {
         }
         if let Some(bablock) = self.extension_block_by_type_mut(BUNDLE_AGE_BLOCK) {
             if let Some(ba_orig) = bablock.bundle_age_get() {
-                bablock.bundle_age_update(ba_orig + residence_time);
-                if ba_orig + residence_time > self.primary.lifetime.as_micros() {
-                    // TODO: check lifetime exceeded calculations with rfc
+                // bundle age and lifetime are both in milliseconds
+                let ba_new = ba_orig.saturating_add(residence_time);
+                bablock.bundle_age_update(ba_new);
+                if ba_new > self.primary.lifetime.as_millis() {
                     return false;
                 }
             }
